@@ -37,6 +37,104 @@ build() {
     rm -f "$LOG.$$"
 }
 
+# ---- coverage-guided campaigns (thorough tier only) -------------------------------------------
+fuzz_targets_for() {
+    case "$1" in
+        C01) echo "chunk_roundtrip" ;;
+        C03) echo "deser message server client handshake" ;;
+        C06) echo "foreign_stream" ;;
+        C12) echo "amf0_diff" ;;
+        C14) echo "amf0_decode" ;;
+        C15) echo "split" ;;
+        *) echo "" ;;
+    esac
+}
+
+fuzz_campaign() {
+    local id="$1" targets="$2"
+    local FUZZ="$ROOT/fuzz"
+    if [ "$REPO_DIR" != "/repo" ]; then
+        FUZZ="$TARGET/alt-fuzz"
+        mkdir -p "$FUZZ"
+        rsync -a --delete --exclude target --exclude work "$ROOT/fuzz/" "$FUZZ/"
+        sed -i 's#path = "../harness"#path = "../alt-harness"#' "$FUZZ/Cargo.toml"
+    fi
+    local runs="${VERIF_FUZZ_RUNS:-1500000}"
+    local seed="${VERIF_SEED:-20260925}"
+    seed=$(( (seed % 2147483646) + 1 ))
+    if ! (cd "$FUZZ" && cargo +nightly fuzz build --fuzz-dir "$FUZZ" >"$FUZZ/build.log" 2>&1); then
+        echo "HARNESS-ERROR: fuzz build failed" >&2
+        tail -30 "$FUZZ/build.log" >&2
+        return 2
+    fi
+    local BIN="$FUZZ/target/x86_64-unknown-linux-gnu/release"
+    local work="$FUZZ/work/$id"
+    rm -rf "$work"; mkdir -p "$work"
+    local pids=()
+    for t in $targets; do
+        mkdir -p "$work/$t/corpus" "$work/$t/artifacts"
+        "$TARGET/release/vcheck" gen-corpus "$t" "$work/$t/corpus" >/dev/null
+        [ -d "$ROOT/corpus/$t" ] && cp "$ROOT/corpus/$t"/* "$work/$t/corpus/" 2>/dev/null
+        ( "$BIN/$t" -runs="$runs" -seed="$seed" -max_len=4096 -len_control=0 -timeout=25 \
+              -rss_limit_mb=4096 -malloc_limit_mb=1024 -print_final_stats=1 \
+              -artifact_prefix="$work/$t/artifacts/" "$work/$t/corpus" >"$work/$t/log" 2>&1
+          echo $? >"$work/$t/exit" ) &
+        pids+=($!)
+    done
+    for p in "${pids[@]}"; do wait "$p"; done
+    local rc=0
+    mkdir -p "$ROOT/replays"
+    for t in $targets; do
+        local ex; ex=$(cat "$work/$t/exit" 2>/dev/null || echo 99)
+        if [ "$ex" != "0" ]; then
+            local found=0
+            for a in "$work/$t/artifacts"/*; do
+                [ -f "$a" ] || continue
+                found=1
+                local h; h=$(sha1sum "$a" | cut -c1-16)
+                local dst="$ROOT/replays/$id-$t-$h.bin"
+                cp "$a" "$dst"
+                echo "VIOLATION property=$id replay=$dst"
+                echo "  fuzz target=$t artifact=$(basename "$a") $(grep -m1 -E 'panicked at|ERROR: libFuzzer|SUMMARY' "$work/$t/log" | cut -c1-300)"
+                rc=1
+            done
+            if [ $found -eq 0 ]; then
+                echo "HARNESS-ERROR: fuzz target $t exited with $ex without an artifact" >&2
+                tail -5 "$work/$t/log" >&2
+                [ $rc -eq 0 ] && rc=2
+            fi
+        fi
+    done
+    python3 - "$ROOT/evidence/$id.json" "$work" $targets <<'PY'
+import json, re, sys, os
+ev_path, work, targets = sys.argv[1], sys.argv[2], sys.argv[3:]
+try:
+    ev = json.load(open(ev_path))
+except Exception:
+    sys.exit(0)
+fz = []
+total = 0
+for t in targets:
+    log = open(os.path.join(work, t, 'log'), errors='replace').read()
+    def stat(name):
+        m = re.search(r'stat::%s:\s+(\d+)' % name, log)
+        return int(m.group(1)) if m else None
+    cov = re.findall(r'cov: (\d+) ft: (\d+) corp: (\d+)', log)
+    runs = stat('number_of_executed_units') or 0
+    total += runs
+    fz.append({"target": t, "engine": "libFuzzer (cargo-fuzz, ASan, debug assertions, overflow checks)",
+               "executed_units": runs, "average_exec_per_sec": stat('average_exec_per_sec'),
+               "edges_covered": int(cov[-1][0]) if cov else None, "features": int(cov[-1][1]) if cov else None,
+               "corpus_units": int(cov[-1][2]) if cov else None,
+               "exit": open(os.path.join(work, t, 'exit')).read().strip()})
+ev['coverage']['fuzz_campaigns'] = fz
+ev['coverage']['fuzz_executions'] = total
+json.dump(ev, open(ev_path, 'w'), indent=1)
+print("fuzz: " + ", ".join("%s %s runs cov %s" % (f['target'], f['executed_units'], f['edges_covered']) for f in fz))
+PY
+    return $rc
+}
+
 cmd="${1:-}"
 case "$cmd" in
     build)
@@ -47,7 +145,15 @@ case "$cmd" in
         tier="${3:-${VERIF_TIER:-quick}}"
         build
         shift 3 2>/dev/null || shift $#
-        exec "$TARGET/release/vcheck" "$id" --tier "$tier" "$@"
+        targets="$(fuzz_targets_for "$id")"
+        if [ "$tier" != "thorough" ] || [ -z "$targets" ] || [ "${VERIF_NO_FUZZ:-0}" = "1" ]; then
+            exec "$TARGET/release/vcheck" "$id" --tier "$tier" "$@"
+        fi
+        "$TARGET/release/vcheck" "$id" --tier "$tier" "$@"
+        code=$?
+        [ $code -ne 0 ] && exit $code
+        fuzz_campaign "$id" "$targets"
+        exit $?
         ;;
     replay)
         build
